@@ -99,7 +99,7 @@ ParseAce(plat, vmajor, toks0) ==
            a == ParseAddr(Take(t2, wdt))
            rest == Drop(t2, wdt)
        IN IF a.k = "bad" \/ ~AllWords(rest) \/ a.k = "group"
-             \/ (rest # <<>> /\ rest[1].s \in {"any", "host", "object-group", "addrgroup"})      \* a second address: not a standard entry
+             \/ (\E k \in 1..Len(rest) : rest[k].s \notin LogKeywords)      \* a standard entry carries log keywords only
           THEN BadAce
           ELSE [ok |-> TRUE, typ |-> "standard", seq |-> seq, act |-> act, proto |-> 0,
                 src |-> a, dst |-> WildSpec(AnyW), sp |-> NoPort, dp |-> NoPort,
